@@ -180,6 +180,7 @@ Proof. exact section_switch_after_any_history. Qed.
 Print Assumptions C08_section_switch_after_any_history.
 
 From Verif Require Import Codec.OffsetModel Labels.LabelsModel Reloc.RelocModel Builder.AsmOrder Builder.BuilderImage Builder.DeltaEffect.
+From Verif Require Builder.AsmOrderAny.
 
 (* ORDER IRRELEVANCE of assembling, proved on C03's label/fixup machine (Verif.Labels.LabelsModel: new_fixup, bind_label with its fixup
    walk, resolve_cross_section_fixups, every displacement format of the two backends): two programs whose per-section operation sequences
@@ -227,6 +228,116 @@ Theorem C08_delta_by_effect : forall base asize atoff slots (s : state) offs re 
 Proof. exact delta_entry_effect. Qed.
 Print Assumptions C08_delta_by_effect.
 
+(* EVERY RUN of the label machine is characterized - no side condition on deltas.  [res_from] rewrites a program along its own run (a delta
+   that took the immediate path becomes the bytes it wrote, a refused one a refused operation); the rewritten program goes through the
+   same states, keeps tags and binds, and satisfies the call-time side condition whatever the program was *)
+Theorem C08_resolved_run : forall nl ns t, tags_ok ns t -> NoDup (bound_labels t) ->
+  let r := AsmOrderAny.res_from (LabelsModel.run init (prelude nl ns)) t in
+  LabelsModel.run init (prelude nl ns ++ expand r) = LabelsModel.run init (prelude nl ns ++ expand t) /\
+  tags_ok ns r /\ bound_labels r = bound_labels t /\ delta_local nl ns r.
+Proof.
+  intros nl ns t HT HN r. split; [apply AsmOrderAny.run_prelude_res|]. split; [apply AsmOrderAny.tags_res; exact HT|].
+  split; [apply AsmOrderAny.bound_labels_res|apply AsmOrderAny.res_local; assumption].
+Qed.
+Print Assumptions C08_resolved_run.
+
+(* ... hence the assembled result of ANY program is the function [final] (label table, section sizes, resolved bytes, unresolved count,
+   relocation entries up to creation order) of the per-section folds of its resolved form *)
+Theorem C08_every_run_characterized : forall nl ns t offs, tags_ok ns t -> NoDup (bound_labels t) ->
+  let r := AsmOrderAny.res_from (LabelsModel.run init (prelude nl ns)) t in
+  nowrap nl ns r offs ->
+  final nl ns r offs (LabelsModel.run init ((prelude nl ns ++ expand t) ++ [OResolve offs])).
+Proof. exact AsmOrderAny.final_char_any. Qed.
+Print Assumptions C08_every_run_characterized.
+
+(* the side condition of C08_order_irrelevant is NECESSARY: a one-byte delta in section 0 between two labels of section 1, embedded after
+   resp. before that section's binds - same per-section sequences, but the byte is written at once (3) in one order and left zero with an
+   expression entry in the other (which relocates to the same byte: C08_delta_by_effect) *)
+Theorem C08_delta_side_condition_necessary :
+  (forall k, proj k AsmOrderAny.ex_after = proj k AsmOrderAny.ex_before) /\
+  ~ delta_local_final 2 1 AsmOrderAny.ex_after /\
+  let s1 := LabelsModel.run init ((prelude 2 1 ++ expand AsmOrderAny.ex_after) ++ [OResolve [0; 4096]]) in
+  let s2 := LabelsModel.run init ((prelude 2 1 ++ expand AsmOrderAny.ex_before) ++ [OResolve [0; 4096]]) in
+  labels s1 = labels s2 /\
+  sec_image (refs s1) (s_items (nsec s1 0)) = [3] /\ relocs s1 = [] /\
+  sec_image (refs s2) (s_items (nsec s2 0)) = [0] /\ map rl_type (relocs s2) = [Expr 1 0] /\
+  AsmOrderAny.res_from (LabelsModel.run init (prelude 2 1)) AsmOrderAny.ex_after = [(1%nat, SBind 0); (1%nat, SRaw [1; 2; 3]); (1%nat, SBind 1); (0%nat, SRaw [3])] /\
+  AsmOrderAny.res_from (LabelsModel.run init (prelude 2 1)) AsmOrderAny.ex_before = AsmOrderAny.ex_before.
+Proof. exact AsmOrderAny.delta_order_matters. Qed.
+Print Assumptions C08_delta_side_condition_necessary.
+
+(* ORDER IRRELEVANCE WITHOUT THE SIDE CONDITION (any label deltas): equal per-section operation sequences and no delta refused for its
+   range in either run (necessary: a refused delta contributes no bytes) give the same label table and section sizes, and the resolved
+   bytes of every section are renderings - under the same label table - of two item lists that agree item by item except that two raw
+   items of EQUAL LENGTH may differ: the delta sites, written at once in one order, zero placeholder + expression entry in the other
+   (C08_delta_by_effect: relocation then writes those same bytes). *)
+Theorem C08_order_irrelevant_any : forall nl ns t1 t2 offs,
+  (forall k, proj k t1 = proj k t2) -> tags_ok ns t1 -> tags_ok ns t2 -> NoDup (bound_labels t1) ->
+  let s0 := LabelsModel.run init (prelude nl ns) in
+  AsmOrderAny.no_misfit s0 t1 -> AsmOrderAny.no_misfit s0 t2 ->
+  nowrap nl ns (AsmOrderAny.res_from s0 t1) offs -> nowrap nl ns (AsmOrderAny.res_from s0 t2) offs ->
+  let s1 := LabelsModel.run init ((prelude nl ns ++ expand t1) ++ [OResolve offs]) in
+  let s2 := LabelsModel.run init ((prelude nl ns ++ expand t2) ++ [OResolve offs]) in
+  labels s1 = labels s2 /\
+  forall k, (k < S ns)%nat ->
+    s_len (nsec s1 k) = s_len (nsec s2 k) /\
+    exists i1 i2, sec_image (refs s1) (s_items (nsec s1 k)) = gimage (labels s1) offs i1 /\
+                  sec_image (refs s2) (s_items (nsec s2 k)) = gimage (labels s1) offs i2 /\
+                  Forall2 AsmOrderAny.irel2 i1 i2.
+Proof. exact AsmOrderAny.order_irrelevant_any. Qed.
+Print Assumptions C08_order_irrelevant_any.
+
+(* ... and so is CodeHolder::unresolved_fixup_count(): reference items and the entries of absolute references do not depend on the path a
+   delta takes (expression entries never wait for a label) *)
+Theorem C08_order_irrelevant_any_unresolved : forall nl ns t1 t2 offs,
+  (forall k, proj k t1 = proj k t2) -> tags_ok ns t1 -> tags_ok ns t2 -> NoDup (bound_labels t1) ->
+  let s0 := LabelsModel.run init (prelude nl ns) in
+  AsmOrderAny.no_misfit s0 t1 -> AsmOrderAny.no_misfit s0 t2 ->
+  nowrap nl ns (AsmOrderAny.res_from s0 t1) offs -> nowrap nl ns (AsmOrderAny.res_from s0 t2) offs ->
+  unresolved (LabelsModel.run init ((prelude nl ns ++ expand t1) ++ [OResolve offs])) = unresolved (LabelsModel.run init ((prelude nl ns ++ expand t2) ++ [OResolve offs])).
+Proof. exact AsmOrderAny.order_irrelevant_any_unresolved. Qed.
+Print Assumptions C08_order_irrelevant_any_unresolved.
+
+(* the hypothesis "no delta refused for its range" is NECESSARY: with two labels 300 bytes apart and a one-byte delta in another section the
+   two orders give section sizes 0 and 1 *)
+Theorem C08_no_misfit_necessary :
+  (forall k, proj k AsmOrderAny.mis_after = proj k AsmOrderAny.mis_before) /\
+  ~ AsmOrderAny.no_misfit (LabelsModel.run init (prelude 2 1)) AsmOrderAny.mis_after /\
+  s_len (nsec (LabelsModel.run init (prelude 2 1 ++ expand AsmOrderAny.mis_after)) 0) = 0 /\
+  s_len (nsec (LabelsModel.run init (prelude 2 1 ++ expand AsmOrderAny.mis_before)) 0) = 1.
+Proof. exact AsmOrderAny.misfit_matters. Qed.
+Print Assumptions C08_no_misfit_necessary.
+
+(* BY EFFECT, operation by operation: the resolved forms of the two interleavings (each run IS the run of its resolved form and is
+   characterized by it: C08_resolved_run, C08_every_run_characterized) agree in every section operation by operation, except that a delta
+   may stand as itself in one - it became an expression entry there - and as the raw bytes of the label difference, taken from the COMMON
+   final label table, in the other; C08_delta_by_effect: the entry relocates to exactly those bytes *)
+Theorem C08_by_effect_any : forall nl ns t1 t2 offs,
+  (forall k, proj k t1 = proj k t2) -> tags_ok ns t1 -> tags_ok ns t2 -> NoDup (bound_labels t1) ->
+  let s0 := LabelsModel.run init (prelude nl ns) in
+  AsmOrderAny.no_misfit s0 t1 -> AsmOrderAny.no_misfit s0 t2 ->
+  nowrap nl ns (AsmOrderAny.res_from s0 t1) offs -> nowrap nl ns (AsmOrderAny.res_from s0 t2) offs ->
+  let s1 := LabelsModel.run init ((prelude nl ns ++ expand t1) ++ [OResolve offs]) in
+  forall k, Forall2 (fun o1 o2 =>
+      o1 = o2 \/
+      exists l b sz ks lo bo, nth_error (labels s1) l = Some (Some (ks, lo)) /\ nth_error (labels s1) b = Some (Some (ks, bo)) /\ size_ok sz = true /\
+        ((o1 = SDelta l b sz /\ o2 = SRaw (le_split (Z.to_nat sz) (wrap (8 * sz) (lo - bo)))) \/
+         (o1 = SRaw (le_split (Z.to_nat sz) (wrap (8 * sz) (lo - bo))) /\ o2 = SDelta l b sz)))
+    (proj k (AsmOrderAny.res_from s0 t1)) (proj k (AsmOrderAny.res_from s0 t2)).
+Proof. exact AsmOrderAny.resolved_ops_agree. Qed.
+Print Assumptions C08_by_effect_any.
+
+(* its hypotheses hold for the pair of programs of C08_delta_side_condition_necessary (which is outside C08_order_irrelevant) *)
+Theorem C08_order_irrelevant_any_example :
+  (forall k, proj k AsmOrderAny.ex_after = proj k AsmOrderAny.ex_before) /\ tags_ok 1 AsmOrderAny.ex_after /\ tags_ok 1 AsmOrderAny.ex_before /\
+  NoDup (bound_labels AsmOrderAny.ex_after) /\
+  AsmOrderAny.no_misfit (LabelsModel.run init (prelude 2 1)) AsmOrderAny.ex_after /\ AsmOrderAny.no_misfit (LabelsModel.run init (prelude 2 1)) AsmOrderAny.ex_before /\
+  nowrap 2 1 (AsmOrderAny.res_from (LabelsModel.run init (prelude 2 1)) AsmOrderAny.ex_after) [0; 4096] /\
+  nowrap 2 1 (AsmOrderAny.res_from (LabelsModel.run init (prelude 2 1)) AsmOrderAny.ex_before) [0; 4096] /\
+  AsmOrderAny.irel2 (GRaw [3]) (GRaw [0]).
+Proof. exact AsmOrderAny.order_irrelevant_any_applies. Qed.
+Print Assumptions C08_order_irrelevant_any_example.
+
 (* SAME IMAGE (was C08_same_image_partial with the whole assembler as hypothesis): for EVERY instruction encoder [enc] whose output for a
    call depends on the call and on the calls issued before in the same section, assembling what the Builder serializes and assembling the
    calls directly give - on C03's machine - the same label table, section sizes and resolved bytes in every section. *)
@@ -249,6 +360,28 @@ Theorem C08_same_image : forall (enc : list ecall -> ecall -> list sop) nl ns of
     sec_image (refs s1) (s_items (nsec s1 k)) = sec_image (refs s2) (s_items (nsec s2 k)).
 Proof. exact same_image. Qed.
 Print Assumptions C08_same_image.
+
+(* SAME IMAGE without the side condition on deltas: what the Builder serializes vs the calls assembled directly, any label deltas, for every
+   encoder of the shape above - same label table and section sizes, bytes equal up to equal-length raw items at delta sites - provided neither
+   assembling refuses a delta for its range *)
+Theorem C08_same_image_any : forall (enc : list ecall -> ecall -> list sop) nl ns offs rs cs,
+  Forall (fun c => is_emitter_call c = true) cs -> all_ok (init_state rs) cs = true ->
+  let direct := program enc (trace cs) in
+  let serialized := program enc (trace (replay (BuilderModel.run (init_state rs) cs))) in
+  secs_valid ns (trace cs) -> NoDup (bound_labels direct) ->
+  let s0 := LabelsModel.run init (prelude nl ns) in
+  AsmOrderAny.no_misfit s0 direct -> AsmOrderAny.no_misfit s0 serialized ->
+  nowrap nl ns (AsmOrderAny.res_from s0 direct) offs -> nowrap nl ns (AsmOrderAny.res_from s0 serialized) offs ->
+  let s1 := LabelsModel.run init ((prelude nl ns ++ expand direct) ++ [OResolve offs]) in
+  let s2 := LabelsModel.run init ((prelude nl ns ++ expand serialized) ++ [OResolve offs]) in
+  labels s1 = labels s2 /\
+  forall k, (k < S ns)%nat ->
+    s_len (nsec s1 k) = s_len (nsec s2 k) /\
+    exists i1 i2, sec_image (refs s1) (s_items (nsec s1 k)) = gimage (labels s1) offs i1 /\
+                  sec_image (refs s2) (s_items (nsec s2 k)) = gimage (labels s1) offs i2 /\
+                  Forall2 AsmOrderAny.irel2 i1 i2.
+Proof. exact same_image_any. Qed.
+Print Assumptions C08_same_image_any.
 
 (* its hypotheses are satisfiable (the two-section example program, an encoder with rel32 label references, offsets 0 and 4096) *)
 Theorem C08_same_image_example :
@@ -320,15 +453,16 @@ Theorem C08_end_func_flushes_local_pool : forall b fl l d e,
 Proof. exact end_func_flushes_local_pool. Qed.
 Print Assumptions C08_end_func_flushes_local_pool.
 
-From Verif Require X86Validate.ValidateModel Builder.ValidateBridge.
+From Verif Require X86Validate.ValidateModel Builder.ValidateBridge Builder.X86Dec.
+From VerifGen Require X86Sigs.
 
 (* VALIDATION PARITY over C13's validator model (Verif.X86Validate.ValidateModel.validate, the transliteration of
-   x86::InstInternal::validate tied to /repo by C13's check): for every decoding [dec] of operands under which "empty" means "empty
-   signature" and every tables/mode, the call the Builder REPLAYS for a recorded instruction node - reserved option bit cleared, empty
+   x86::InstInternal::validate tied to /repo by C13's check): for every reading [dec] of operands under which an empty signature is "no
+   operand" and every tables/mode, the call the Builder REPLAYS for a recorded instruction node - reserved option bit cleared, empty
    slots after the last operand rewritten by op_array - gets the verdict of the original call (Assembler: kValidateAssembler; Builder at
    record time: kValidateIntermediate on all six slots, /repo 839e6db; virt = Compiler). *)
 Theorem C08_validation_parity : forall (T : ValidateModel.vtables) (zq x64 : bool) (dec : operand -> ValidateModel.operand) (xtype : Z -> N),
-  (forall o, dec o = ValidateModel.ONone <-> is_none o = true) ->
+  (forall o, is_none o = true -> dec o = ValidateModel.ONone) ->
   forall virt b id o0 o1 o2 o3 o4 o5,
   match node_ecalls (inst_node b id o0 o1 o2 o3 o4 o5) with
   | [EInst id' opts' es' ei' ops' _] =>
@@ -339,6 +473,48 @@ Theorem C08_validation_parity : forall (T : ValidateModel.vtables) (zq x64 : boo
 Proof. exact ValidateBridge.validation_parity. Qed.
 Print Assumptions C08_validation_parity.
 
+(* ... instantiated with the concrete reading of x86 operands (X86Dec.dec_x86: Operand_ signature layout, memory fields, immediates) and
+   of the extra register: no hypothesis left.  The same [verdict] is what the extracted model computes in every run for the x86
+   strict-validation programs and what the check compares with the error the real Builder returns. *)
+Theorem C08_validation_parity_x86 : forall T zq x64 virt b id o0 o1 o2 o3 o4 o5,
+  match node_ecalls (inst_node b id o0 o1 o2 o3 o4 o5) with
+  | [EInst id' opts' es' ei' ops' _] =>
+      ValidateBridge.verdict T zq x64 X86Dec.dec_x86 X86Dec.xtype_x86 virt id' opts' es' ei' ops'
+      = ValidateBridge.verdict T zq x64 X86Dec.dec_x86 X86Dec.xtype_x86 virt id (p_opts b) (p_exsig b) (p_exid b) [o0; o1; o2; o3; o4; o5]
+  | _ => False
+  end.
+Proof. exact X86Dec.validation_parity_x86. Qed.
+Print Assumptions C08_validation_parity_x86.
+
+(* a VALIDATED _emit at full strength: refused -> the returned error is the verdict and nothing but the one-shot state changes (node list,
+   cursor, pool, section links, label/section counts, function and constant-pool state are untouched); accepted -> exactly the unvalidated
+   _emit, and the call the recorded node stands for is accepted again at serialization *)
+Theorem C08_validated_emit_spec : forall T x64 virt b id o0 o1 o2 o3 o4 o5,
+  let e := ValidateBridge.verdict T false x64 X86Dec.dec_x86 X86Dec.xtype_x86 virt id (p_opts b) (p_exsig b) (p_exid b) [o0; o1; o2; o3; o4; o5] in
+  let r := X86Dec.emit_validated_x86 T x64 virt b id o0 o1 o2 o3 o4 o5 in
+  (e <> 0%N -> snd r = Z.of_N e /\ active (fst r) = active b /\ cursor (fst r) = cursor b /\ pool (fst r) = pool b /\ links (fst r) = links b /\
+               dirty (fst r) = dirty b /\ nlabels (fst r) = nlabels b /\ nsections (fst r) = nsections b /\ cur_func (fst r) = cur_func b /\
+               lpool (fst r) = lpool b /\ gpool (fst r) = gpool b /\
+               p_opts (fst r) = 0%Z /\ p_exsig (fst r) = 0%Z /\ p_exid (fst r) = 0%Z /\ p_comment (fst r) = None) /\
+  (e = 0%N -> r = BuilderModel.step b (CEmit id o0 o1 o2 o3 o4 o5) /\ snd r = kOk /\
+              match node_ecalls (inst_node b id o0 o1 o2 o3 o4 o5) with
+              | [EInst id' opts' es' ei' ops' _] => ValidateBridge.verdict T false x64 X86Dec.dec_x86 X86Dec.xtype_x86 virt id' opts' es' ei' ops' = 0%N
+              | _ => False
+              end).
+Proof. exact X86Dec.emit_validated_x86_spec. Qed.
+Print Assumptions C08_validated_emit_spec.
+
+(* non-vacuity on /repo's generated tables: `add eax, ebx` accepted (also with the reserved bit and as replayed), `add eax, <none>, ebx`
+   refused with kInvalidInstruction, 64-bit registers refused in 32-bit mode, and a refused _emit only resets the one-shot state *)
+Theorem C08_validation_examples :
+  ValidateBridge.verdict X86Sigs.x86_vtables false true X86Dec.dec_x86 X86Dec.xtype_x86 false 9 0 0 0 [X86Dec.r32 0; X86Dec.r32 3; op_none; op_none; op_none; op_none] = ValidateModel.E_Ok /\
+  ValidateBridge.verdict X86Sigs.x86_vtables false true X86Dec.dec_x86 X86Dec.xtype_x86 false 9 1 0 0 (canon_ops (X86Dec.r32 0) (X86Dec.r32 3) op_none op_none op_none op_none) = ValidateModel.E_Ok /\
+  ValidateBridge.verdict X86Sigs.x86_vtables false true X86Dec.dec_x86 X86Dec.xtype_x86 false 9 0 0 0 [X86Dec.r32 0; op_none; X86Dec.r32 3; op_none; op_none; op_none] = ValidateModel.E_InvalidInstruction /\
+  ValidateBridge.verdict X86Sigs.x86_vtables false false X86Dec.dec_x86 X86Dec.xtype_x86 false 9 0 0 0 [mkOp 134217777 0 0 0; mkOp 134217777 3 0 0; op_none; op_none; op_none; op_none] = ValidateModel.E_InvalidUseOfGpq /\
+  fst (X86Dec.emit_validated_x86 X86Sigs.x86_vtables true false (init_state 8) 9 (X86Dec.r32 0) op_none (X86Dec.r32 3) op_none op_none op_none) = with_pend (init_state 8) 0 0 0 None.
+Proof. exact X86Dec.verdict_x86_examples. Qed.
+Print Assumptions C08_validation_examples.
+
 (* the validator ignores the reserved option bit (the one difference between the options of a node and of the call) *)
 Theorem C08_validate_ignores_reserved : forall T zq x64 virt inst ops,
   ValidateModel.validate T zq x64 virt (ValidateBridge.with_options inst (N.ldiff (ValidateModel.vi_options inst) 1)) ops
@@ -347,17 +523,29 @@ Proof. exact ValidateBridge.validate_ignores_reserved. Qed.
 Print Assumptions C08_validate_ignores_reserved.
 
 (* a call the validator ACCEPTS has no operand after an empty slot, hence the operand count of the unrepaired op_count_from_emit_args
-   equals the repaired one: under strict validation no recorded instruction ever lost an operand (C08/operand-after-hole-dropped is a
-   defect of unvalidated streams only) *)
+   equals the repaired one: under strict validation no recorded instruction ever lost an operand (the defect fixed by a794350 was one of
+   unvalidated streams only).  "Clean" operands: a signature the validator reads as "no operand" (operand type 0) is the empty signature;
+   for X86Dec.dec_x86 that is the stated bit condition (X86Dec.clean_x86). *)
 Theorem C08_accepted_call_has_no_hole : forall (T : ValidateModel.vtables) (zq x64 : bool) (dec : operand -> ValidateModel.operand) (xtype : Z -> N),
-  (forall o, dec o = ValidateModel.ONone <-> is_none o = true) ->
+  (forall o, is_none o = true -> dec o = ValidateModel.ONone) ->
   forall virt id opts es ei o0 o1 o2 o3 o4 o5,
+  Forall (ValidateBridge.clean dec) [o0; o1; o2; o3; o4; o5] ->
   ValidateBridge.verdict T zq x64 dec xtype virt id opts es ei [o0; o1; o2; o3; o4; o5] = ValidateModel.E_Ok ->
   (forall i j, (i < j)%nat -> is_none (nth i [o0; o1; o2; o3; o4; o5] op_none) = true -> is_none (nth j [o0; o1; o2; o3; o4; o5] op_none) = true) /\
   op_count_legacy o0 o1 o2 o3 o4 o5 = op_count o0 o1 o2 o3 o4 o5.
 Proof.
-  intros T zq x64 dec xtype HD virt id opts es ei o0 o1 o2 o3 o4 o5 H. split.
-  - exact (ValidateBridge.accepted_no_operand_after_hole T zq x64 dec xtype HD virt id opts es ei o0 o1 o2 o3 o4 o5 H).
-  - exact (ValidateBridge.accepted_counts_agree T zq x64 dec xtype HD virt id opts es ei o0 o1 o2 o3 o4 o5 H).
+  intros T zq x64 dec xtype HD virt id opts es ei o0 o1 o2 o3 o4 o5 HC H. split.
+  - exact (ValidateBridge.accepted_no_operand_after_hole T zq x64 dec xtype HD virt id opts es ei o0 o1 o2 o3 o4 o5 HC H).
+  - exact (ValidateBridge.accepted_counts_agree T zq x64 dec xtype HD virt id opts es ei o0 o1 o2 o3 o4 o5 HC H).
 Qed.
 Print Assumptions C08_accepted_call_has_no_hole.
+
+(* non-vacuity of C08_delta_by_effect: an instance (labels at 100 and 40 of section 1, one byte: 60), and a difference outside the range is
+   refused by relocation exactly as the immediate path refuses the call *)
+Theorem C08_delta_by_effect_example :
+  (exists o, relocate_entry 65536 8 0 [] (entry_of_reloc DeltaEffect.ex_state [0; 4096] (DeltaEffect.ex_entry 1)) = inl (o, []) /\
+             le_split 1 (o_word o) = [60] /\ DeltaEffect.delta_bytes 1 (100 - 40) = [60]) /\
+  relocate_entry 65536 8 0 [] (entry_of_reloc (set_labels init [Some (1%nat, 300); Some (1%nat, 40)]) [0; 4096] (DeltaEffect.ex_entry 1)) = inr RInvalidEntry /\
+  snd (LabelsModel.step (set_labels init [Some (1%nat, 300); Some (1%nat, 40)]) (ODeltaChecked 0 1 1)) = EInvalidDisp.
+Proof. split; [exact DeltaEffect.delta_entry_effect_instance|exact DeltaEffect.delta_entry_out_of_range]. Qed.
+Print Assumptions C08_delta_by_effect_example.
